@@ -326,7 +326,10 @@ def handle (line : String) : String :=
              | none => "SPEC C14:lookup-misses-extension")
           else ""
         let d := if m == goRes then "" else s!"DIFF xlookup model={m}" ++ (if fresh && exts.length == 1 then " ; SPEC C14:lookup-of-extension" else "")
-        let all := [d, sp].filter (· != "")
+        -- C15: every registered type and alias resolves through Lookup
+        let registered := T.flatten.any (fun i => i.mime == name || i.aliases.contains name)
+        let s15 := if registered && goRes.startsWith "NIL" then "SPEC C15:registered-name-does-not-resolve" else ""
+        let all := [d, sp, s15].filter (· != "")
         if all.isEmpty then "OK" else String.intercalate " ; " all
       | _, _ => "BAD args"
     | ["reader", lim, hx, chunks, ewd, errAt] =>
